@@ -332,6 +332,11 @@ class _seat_playing:
         return conj(result, frame.trick_num == 13)
 
 
+def client_got(s):
+    from pyvc.speclib import sock_sent
+    return sock_sent(s.connection_socket)
+
+
 def _seat_run_inv(self):
     return pt_inv(self)
 
@@ -364,7 +369,23 @@ class _seat_run:
         return implies(not admitted, forall(Player, lambda p: same(
             self.team_names[p], after_admission.team_names[p])))
 
-    loops = {0: LoopContract(invariant=_seat_run_inv, havoc=dict(passed_out=Bool()),
+    # C10 (what a seat is entitled to includes the end of the session; the bundled client stops
+    # only there: C11): when the main thread announces the end, the last thing the client is sent
+    # is "End of session"
+    def ensures_end_of_session_is_passed_on(self, frame):
+        from pyvc.speclib import local_assigned
+        if not local_assigned(frame, 'status_message'):
+            return True
+        from pyvc.speclib import call_arg
+        from bridge_env.network_bridge.socket_interface import MessageInterface as _MI
+        n = calls_since(None, _MI.send_message)
+        if n < 1:
+            return not (frame.status_message == M.END_SESSION)
+        return implies(frame.status_message == M.END_SESSION,
+                       call_arg(None, _MI.send_message, n - 1, 'message') == M.END_SESSION)
+
+    loops = {0: LoopContract(invariant=_seat_run_inv,
+                             havoc=dict(passed_out=Bool(), status_message=Text(), message=Text()),
                              havoc_heap=SEAT_RESET,
                              body_ensures=dict(
                                  play_iff_not_passed_out=_board_is_played_iff_not_passed_out))}
